@@ -73,18 +73,20 @@ func (d *DefaultMetricLogWriter) Write(ts uint64, items []*base.MetricItem) erro
 		// ignore
 		return nil
 	}
-	if timeSec > d.latestOpSec {
-		pos, err := util.FilePosition(d.curMetricFile)
-		if err != nil {
-			return errors.Wrap(err, "cannot get current pos of the metric file")
+	if timeSec > d.latestOpSec && d.isNewDay(d.latestOpSec, timeSec) {
+		if err := d.rollToNextFile(ts); err != nil {
+			return errors.Wrap(err, "failed to roll the metric log")
 		}
+	}
+	pos, err := util.FilePosition(d.curMetricFile)
+	if err != nil {
+		return errors.Wrap(err, "cannot get current pos of the metric file")
+	}
+	// Index the first line of every second and also the first line of every file, in the idx file
+	// of the file that holds the line: a file must stay searchable after its predecessor was removed.
+	if timeSec > d.latestOpSec || pos == 0 {
 		if err = d.writeIndex(timeSec, pos); err != nil {
 			return errors.Wrap(err, "cannot write metric idx file")
-		}
-		if d.isNewDay(d.latestOpSec, timeSec) {
-			if err = d.rollToNextFile(ts); err != nil {
-				return errors.Wrap(err, "failed to roll the metric log")
-			}
 		}
 	}
 	// Write and flush
